@@ -2062,6 +2062,12 @@ public:
      * \endinternal
      */
     const int* getNeededIndexes() const;
+#ifdef TASMANIAN_VERIF_HOOKS
+    //! \brief Verification hook: raw multi-indexes of the needed points for any grid type (nullptr if none).
+    const int* verifNeededIndexes() const{ return (base) ? base->verifNeededIndexes() : nullptr; }
+    //! \brief Verification hook: raw multi-indexes of the loaded points for any grid type (nullptr if none).
+    const int* verifLoadedIndexes() const{ return (base) ? base->verifLoadedIndexes() : nullptr; }
+#endif
 
     /*!
      * \internal
